@@ -28,6 +28,14 @@ type Pred struct {
 
 type DB struct {
 	Preds map[string]*Pred
+	// Grammar rules (Head --> Body), interpreted directly - never translated. Key: name/arity of
+	// the non-terminal (arity without the two list arguments).
+	Grammar map[string][]*GRule
+}
+
+// GRule is one grammar rule; PB is the push-back list (nil if none).
+type GRule struct {
+	Head, PB, Body Term
 }
 
 func Key(name string, arity int) string { return fmt.Sprintf("%s/%d", name, arity) }
@@ -41,6 +49,12 @@ func (db *DB) Clone() *DB {
 		np := *p
 		np.Clauses = append([]*Clause{}, p.Clauses...)
 		n.Preds[k] = &np
+	}
+	for k, g := range db.Grammar {
+		if n.Grammar == nil {
+			n.Grammar = map[string][]*GRule{}
+		}
+		n.Grammar[k] = append([]*GRule{}, g...)
 	}
 	return n
 }
@@ -463,6 +477,14 @@ func (m *Machine) step(fr *frame) bool {
 		return m.bagof(args[0], args[1], args[2], false, cont)
 	case "setof/3":
 		return m.bagof(args[0], args[1], args[2], true, cont)
+	case "phrase/2":
+		m.phrase(args[0], args[1], Nil, cont)
+		return true
+	case "phrase/3":
+		m.phrase(args[0], args[1], args[2], cont)
+		return true
+	case "$dcg/3":
+		return m.dcg(args[0], args[1], args[2], fr.cutB, cont)
 	case "repeat/0":
 		m.pushGen(cont, func() bool { return true })
 		return true
@@ -472,6 +494,14 @@ func (m *Machine) step(fr *frame) bool {
 	}
 	// user-defined procedure
 	p, ok := w.DB.Preds[Key(name, len(args))]
+	if !ok && len(args) >= 2 && len(w.DB.Grammar[Key(name, len(args)-2)]) > 0 {
+		// a non-terminal called as a predicate (call//N, or directly): its last two arguments are the lists
+		var nt Term = Atom(name)
+		if len(args) > 2 {
+			nt = &Cmp{F: name, Args: args[:len(args)-2]}
+		}
+		return m.nonTerminal(nt, args[len(args)-2], args[len(args)-1], cont)
+	}
 	if !ok {
 		if w.UnknownFail {
 			return false
@@ -953,4 +983,156 @@ func (w *World) Run(goal Term, vars []*Var, max int) Result {
 	w.Trail.Undo(0)
 	r.Out = w.Out.String()[before:]
 	return r
+}
+
+// ---------------------------------------------------------------------------------------------
+// grammar rules: a direct interpreter of grammar bodies over difference lists (ISO/IEC TS 13211-3
+// semantics); nothing is translated.
+
+// AddGrammar stores a grammar rule Head --> Body (Head may be (NT, PushBack)).
+func (db *DB) AddGrammar(rule Term) {
+	c := Deref(rule).(*Cmp)
+	head, body := Deref(c.Args[0]), c.Args[1]
+	var pb Term
+	if h, ok := head.(*Cmp); ok && h.F == "," && len(h.Args) == 2 {
+		head, pb = Deref(h.Args[0]), h.Args[1]
+	}
+	switch head.(type) {
+	case *Var:
+		InstErr()
+	case Atom, *Cmp:
+	default:
+		TypeErr("callable", head)
+	}
+	name, arity, _ := Indicator(head)
+	if db.Grammar == nil {
+		db.Grammar = map[string][]*GRule{}
+	}
+	r := Copy(C("$r", head, orNil(pb), body), map[*Var]*Var{}).(*Cmp)
+	g := &GRule{Head: r.Args[0], Body: r.Args[2]}
+	if pb != nil {
+		g.PB = r.Args[1]
+	}
+	k := Key(name, arity)
+	db.Grammar[k] = append(db.Grammar[k], g)
+}
+
+func orNil(t Term) Term {
+	if t == nil {
+		return Atom("$none")
+	}
+	return t
+}
+
+func (m *Machine) phrase(body, s0, s Term, cont *frame) {
+	b := Deref(body)
+	switch b.(type) {
+	case *Var:
+		InstErr()
+	case Atom, *Cmp:
+	default:
+		TypeErr("callable", b)
+	}
+	for _, l := range []Term{s0, s} {
+		_, tail := ListSlice(l)
+		switch x := Deref(tail).(type) {
+		case *Var:
+		case Atom:
+			if x != Nil {
+				TypeErr("list", l)
+			}
+		default:
+			TypeErr("list", l)
+		}
+	}
+	// opaque to cut, like call/N
+	m.goals = &frame{goal: C("$dcg", b, s0, s), cutB: len(m.cps), next: cont}
+}
+
+// dcg interprets one grammar body between S0 and S.
+func (m *Machine) dcg(body, s0, s Term, cutB int, cont *frame) bool {
+	b := Deref(body)
+	push := func(gs ...Term) bool {
+		var f *frame = cont
+		for i := len(gs) - 1; i >= 0; i-- {
+			f = &frame{goal: gs[i], cutB: cutB, next: f}
+		}
+		m.goals = f
+		return true
+	}
+	switch x := b.(type) {
+	case *Var:
+		// a variable body is phrase(V, S0, S) at run time
+		return push(C("phrase", x, s0, s))
+	case Atom:
+		switch x {
+		case Nil:
+			return m.unify(s0, s)
+		case "!":
+			m.cutTo(cutB)
+			return m.unify(s0, s)
+		}
+		return m.nonTerminal(x, s0, s, cont)
+	case *Cmp:
+		switch {
+		case x.F == "." && len(x.Args) == 2:
+			elems, tail := ListSlice(x)
+			if Deref(tail) != Term(Nil) {
+				TypeErr("list", x)
+			}
+			return m.unify(s0, PList(s, elems...))
+		case x.F == "," && len(x.Args) == 2:
+			mid := NewVar("")
+			return push(C("$dcg", x.Args[0], s0, mid), C("$dcg", x.Args[1], mid, s))
+		case (x.F == ";" || x.F == "|") && len(x.Args) == 2:
+			if c, ok := Deref(x.Args[0]).(*Cmp); ok && c.F == "->" && len(c.Args) == 2 {
+				mid := NewVar("")
+				return push(C(";", C("->", C("$dcg", c.Args[0], s0, mid), C("$dcg", c.Args[1], mid, s)), C("$dcg", x.Args[1], s0, s)))
+			}
+			m.push(&choice{kind: cpAlt, alt: &frame{goal: C("$dcg", x.Args[1], s0, s), cutB: cutB, next: cont}})
+			return push(C("$dcg", x.Args[0], s0, s))
+		case x.F == "->" && len(x.Args) == 2:
+			mid := NewVar("")
+			return push(C("->", C("$dcg", x.Args[0], s0, mid), C("$dcg", x.Args[1], mid, s)))
+		case x.F == "{}" && len(x.Args) == 1:
+			return push(C("call", x.Args[0]), C("=", s0, s))
+		case x.F == "\\+" && len(x.Args) == 1:
+			return push(C("\\+", C("$dcg", x.Args[0], s0, NewVar(""))), C("=", s0, s))
+		case x.F == "call" && len(x.Args) >= 1:
+			return push(&Cmp{F: "call", Args: append(append([]Term{}, x.Args...), s0, s)})
+		}
+		return m.nonTerminal(x, s0, s, cont)
+	}
+	TypeErr("callable", b)
+	return false
+}
+
+func (m *Machine) nonTerminal(nt Term, s0, s Term, cont *frame) bool {
+	name, arity, _ := Indicator(nt)
+	rules := m.W.DB.Grammar[Key(name, arity)]
+	if len(rules) == 0 {
+		// not a grammar rule: the predicate with two more arguments
+		var args []Term
+		if c, ok := nt.(*Cmp); ok {
+			args = append(args, c.Args...)
+		}
+		m.goals = &frame{goal: &Cmp{F: name, Args: append(args, s0, s)}, cutB: len(m.cps), next: cont}
+		return true
+	}
+	// one pseudo-clause per rule: '$nt'(Head, S0, S) :- '$dcg'(Body, S0, S1), S1 = PushBack ++ S
+	var cls []*Clause
+	for _, r := range rules {
+		vs0, vs, mid := NewVar(""), NewVar(""), NewVar("")
+		var body Term
+		if r.PB == nil {
+			body = C("$dcg", r.Body, vs0, vs)
+		} else {
+			elems, _ := ListSlice(r.PB)
+			body = C(",", C("$dcg", r.Body, vs0, mid), C("=", vs, PList(mid, elems...)))
+		}
+		cls = append(cls, &Clause{Head: C("$nt", r.Head, vs0, vs), Body: body})
+	}
+	c := &choice{kind: cpClauses, goal: C("$nt", nt, s0, s), clauses: cls, goals: cont}
+	m.push(c)
+	return m.tryClauses(c)
 }
